@@ -157,6 +157,27 @@ def run(ctx):
         if ctor is not None:
             classes.setdefault(ctor.func.id, []).append(name)
 
+    # ---- the constructor calls themselves: every argument handed over is one the oracle class takes ------------------------------------
+    n_ctor = 0
+    for c in ast.walk(setup.node):
+        if isinstance(c, ast.Call) and isinstance(c.func, ast.Name) and c.func.id in classes:
+            crel = resolve_class(repo, c.func.id)
+            init = repo.module(crel).funcs.get(c.func.id + '.__init__')
+            if init is None:
+                raise AnalysisError('oracle class %s has no constructor of its own' % c.func.id)
+            params = init.params[1:]
+            a_ = init.node.args
+            if a_.kwarg is not None or any(isinstance(x, ast.Starred) for x in c.args) or any(k.arg is None for k in c.keywords):
+                continue
+            unknown = [k.arg for k in c.keywords if k.arg not in params and k.arg not in [x.arg for x in a_.kwonlyargs]]
+            too_many = len(c.args) > len(params) and a_.vararg is None
+            n_ctor += 1
+            ctx.ob('conformance', setup, c, not unknown and not too_many,
+                   'the oracle constructor %s.__init__(%s) is called with %s' % (c.func.id, ', '.join(params), 'arguments it takes' if not unknown and not too_many else
+                   ('the keyword(s) %s, which it does not take: constructing this oracle raises TypeError' % unknown if unknown else 'too many positional arguments')),
+                   construct='constructor call %s(..)' % c.func.id)
+    ctx.floor('oracle constructor calls checked against their signatures', n_ctor, 2)
+
     # ---- required accesses ----------------------------------------------------------------
     required = {}      # attr -> (kind, node, fi, nargs)
     written_in_setup = set()
